@@ -122,7 +122,13 @@ def gen_steps(rng, cfg, first_is_mkfs):
             f = rng.choice([0.6, 0.75, 0.9, 1.3, 2.0])
             steps.append({"tool": "resize2fs", "kib": max(1024, int(cfg["size_kib"] * f))})
         elif k == "fsck":
-            steps.append({"tool": "e2fsck", "args": rng.choice([["-fy"], ["-fyD"], ["-fy", "-E", "bmap2extent"]])})
+            st = {"tool": "e2fsck", "args": rng.choice([["-fy"], ["-fyD"], ["-fy", "-E", "bmap2extent"]])}
+            if rng.chance(0.5):
+                # something to repair: a pending journal transaction (replay makes e2fsck restart), a wrong link count
+                # (fixed in pass 4), a wrong free count (pass 5) -- put there, unrecorded, before the recorded run
+                st["prep"] = rng.sample(["journal", "links", "freecount"], rng.range(1, 3))
+                st["prep_seed"] = rng.u64() >> 1
+            steps.append(st)
         elif k == "debugfs":
             cmds = []
             for j in range(rng.range(1, 6)):
@@ -138,7 +144,9 @@ def gen_steps(rng, cfg, first_is_mkfs):
                 elif op == 4:
                     cmds.append("expand_dir /")
                 else:
-                    cmds.append('zap_block -p 0x%x %d' % (rng.below(256), rng.range(0, cfg["size_kib"] * 1024 // cfg["bs"] - 1)))
+                    nblk = cfg["size_kib"] * 1024 // cfg["bs"]
+                    cmds.append('zap_block -p 0x%x %d' % (rng.below(256), rng.range(0, nblk - 1) if rng.chance(0.6) else
+                                                          nblk - 1 - rng.below(min(nblk, 40))))
             steps.append({"tool": "debugfs", "cmds": cmds})
         else:
             c2 = gen_config(Rng(rng.u64()), small=True, avoid=("mmp", "bigalloc"))
@@ -164,11 +172,13 @@ class C12(Check):
                         "P0 byte image kept by the orchestrator"]
 
     def budget(self, tier):
-        return {"runs": 260, "wall_s": 100} if tier == "quick" else {"runs": 20000, "wall_s": 1500}
+        return {"runs": 2600, "wall_s": 75} if tier == "quick" else {"runs": 60000, "wall_s": 1500}
 
     def generate(self, rng, tier):
         cfg = gen_config(rng, small=True, avoid=("mmp",))
-        first_is_mkfs = rng.chance(0.25)
+        # device sizes that are not a multiple of the 32 KiB undo block mke2fs uses (a short last undo block)
+        cfg["size_kib"] += rng.choice([0, 0, 0, 1, 4, 8, 20, 31, 33])
+        first_is_mkfs = rng.chance(0.3)
         mode = rng.weighted([("plain", 4), ("kill", 4), ("bitflip", 4), ("wrongfs", 2)])
         return {"cfg": cfg, "world_seed": rng.u64(), "initial": rng.choice(["noise", "fs"]) if first_is_mkfs else "fs",
                 "steps": gen_steps(rng, cfg, first_is_mkfs), "onefile": rng.chance(0.35), "mode": mode,
@@ -201,10 +211,27 @@ class C12(Check):
         pl = Plan([(img, self._dev), undo], None, clock=clock, rand_seed=11, faults=faults)
         return run_sim(argv, pl, wd, tag=tag, env=e, keep_log=True, cpu_s=30)
 
+    def _prep_damage(self, st, img, wd, tag, clock):
+        from world import debugfs_script
+        prng = Rng(st["prep_seed"])
+        cmds = []
+        if "links" in st["prep"]:
+            cmds.append("set_inode_field <2> links_count %d" % prng.range(5, 40))
+        if "freecount" in st["prep"]:
+            cmds.append("set_bg 0 free_blocks_count %d" % prng.range(0, 200))
+        if "journal" in st["prep"] and "has_journal" in self._cfg["features"]:
+            nb = self._cfg["size_kib"] * 1024 // self._cfg["bs"]
+            src = os.path.join(wd, "uh0")
+            cmds += ["jo", "jw -b %d %s" % (prng.range(nb // 2, nb - 2), src), "jc"]
+        if cmds:
+            debugfs_script(img, cmds, wd, tag=tag + "prep", clock=clock - 50, rand_seed=13, plan_kw=None,
+                           devices=[(img, self._dev)])
+
     def execute(self, spec, wd):
         o = Outcome()
         rng = Rng(spec["world_seed"])
         cfg = spec["cfg"]
+        self._cfg = cfg
         img = os.path.join(wd, "img")
         traces = []
         self._dev = spec.get("dev", "")
@@ -240,6 +267,8 @@ class C12(Check):
         for i, st in enumerate(steps):
             undo = os.path.join(wd, "undo0" if spec["onefile"] else "undo%d" % i)
             last = i == len(steps) - 1
+            if st["tool"] == "e2fsck" and st.get("prep") and i == 0:    # (later it would be an unrecorded change inside the chain)
+                self._prep_damage(st, img, wd, "s%d" % i, clock)      # unrecorded: part of the state the run starts from
             faults = ()
             if mode == "kill" and last:
                 # learn the number of events from an uninterrupted run on copies
@@ -274,7 +303,9 @@ class C12(Check):
                 break
             if not os.path.exists(undo) or (before_undo is not None and open(undo, "rb").read() == before_undo):
                 # the tool refused or had nothing to record: the device must not have changed either
-                if open(img, "rb").read()[:len(before)] != before:
+                if open(img, "rb").read()[:len(before)] != before and before_undo is None:
+                    # (an appended-to undo file may stay byte-identical when every block the run touched was recorded by
+                    # an earlier run; the final comparison still covers that case)
                     o.violate("plain|%s|modified_without_record" % st["tool"],
                               "%s -z changed the device but recorded nothing (status %s): chain %s, features %s" %
                               (st["tool"], r.status, chain, feats), skey="norecord")
